@@ -10,14 +10,15 @@ from vp.runner import open_risks, stable_hash
 PID = 'C03'
 LEVEL = 'exploration'
 RULE = ("seeded small smooth models (1-3 nodes, one node per type so that initial values fingerprint) x random "
-        "(T, dt, dts=m*dt, cutoff) x solver in euler/heun/scipy(RK45,DOP853,Radau,LSODA) on the default backend, with and "
+        "(T, dt, dts=m*dt, cutoff; T and dts as exact binary values, as products, or as the decimal literals a user writes, "
+        "preferring durations whose float quotient T/dt falls just below the integer step count) x solver in euler/heun/scipy(RK45,DOP853,Radau,LSODA) on the default backend, with and "
         "without a white-noise extrinsic input; monitors: online trace specification on the RHS call sequence recorded "
         "inside BaseBackend.run (stepping protocol, storage cadence) and offline comparison of the DataFrame (values, "
         "index, shape, cutoff) with the reference Euler/Heun iterates of the independent reference RHS, or a tight-tolerance "
         "reference solution for adaptive solvers; non-trivial = at least 2 state variables or an input; distinct = distinct "
         "(spec hash, run settings)")
 DECIDING = ['trace_calls_checked', 'rows_compared', 'index_checks', 'cutoff_checks', 'adaptive_points_compared',
-            'heun_runs', 'euler_runs', 'scipy_runs', 'order_checks']
+            'heun_runs', 'euler_runs', 'scipy_runs', 'order_checks', 'durations_with_quotient_just_below_integer']
 ASSUMPTIONS = ['sampling step is an integer multiple of the step, T an integer multiple of the sampling step',
                'cutoff is either 0, a half-way point between samples or exactly representable',
                'Heun on a time-dependent RHS: either stage-time convention accepted']
@@ -51,6 +52,17 @@ def pick_settings(rnd, exact):
     nrows = rnd.randint(3, 30)
     dts = m * dt
     T = nrows * dts
+    if not exact and rnd.random() < 0.6:
+        # the decimal literal a user would write (0.3, 0.007): T/dt is then often just below the integer
+        dts = float(repr(round(dts, 10)))
+        if rnd.random() < 0.6:
+            # prefer a duration whose quotient T/dt (or T/dts) falls just below the integer number of steps
+            cands = [n for n in range(3, 41)
+                     if int(float(repr(round(n * dts, 10))) / dt) != int(round(float(repr(round(n * dts, 10))) / dt))
+                     or int(float(repr(round(n * dts, 10))) / dts) != n]
+            if cands:
+                nrows = rnd.choice(cands)
+        T = float(repr(round(nrows * dts, 10)))
     r = rnd.random()
     if r < 0.4:
         cutoff, j = 0.0, 0
@@ -85,6 +97,8 @@ def run_case(case, ctx):
     in_keys = [k for k in ref.param_keys if ref.kind[k] == 'in' and not ref._intra_sources(k)
                and not any(e['tgt'] == k for e in ref.edges)]
     steps = int(round(T / dt))
+    if int(T / dt) != steps:
+        mech['durations_with_quotient_just_below_integer'] = 1
     use_input = bool(in_keys) and rnd.random() < 0.4 and case['solver'] in ('euler', 'heun')
     if use_input:
         ik = rnd.choice(in_keys)
